@@ -54,7 +54,7 @@ mod body {
         let mut buf = [0u8; L];
         fill::<L, K>(&shape, &cls, &mut buf);
         let text = unsafe { std::str::from_utf8_unchecked(&buf[..]) };
-        let m = model::<K>(&shape, &cls);
+        let m = model::<K>(&shape, &cls, false);
         let li = LineIndex::parse(text);
         let line: usize = kani::any();
         let col: usize = kani::any();
@@ -88,7 +88,7 @@ mod body {
         let mut buf = [0u8; L];
         fill::<L, K>(&shape, &cls, &mut buf);
         let text = unsafe { std::str::from_utf8_unchecked(&buf[..]) };
-        let m = model::<K>(&shape, &cls);
+        let m = model::<K>(&shape, &cls, false);
         let li = LineIndex::parse(text);
         let idx: usize = kani::any();
         kani::assume(idx <= K);
